@@ -34,11 +34,11 @@ Lemma router_idx_in c : In (router_idx c) (cluster_idx c).
 Proof. destruct c as [a [b|]]; cbn; auto. Qed.
 
 (* the decision of a reference node and the router of its cluster are updated together *)
-Lemma Sim_dec_update phi sr sc k n c d d' ndr clsr r r' next' :
+Lemma Sim_dec_update phi sr sc k n c d d' ndr clsr r r' next' cont' :
   Sim phi sr sc -> nth_error (s_nodes sr) k = Some n -> rn_dec n = Some d -> nth_error phi k = Some c ->
   nth_error (cs_nodes sc) (router_idx c) = Some ndr -> cn_body ndr = BSwitch clsr r ->
   dec_sim phi (cuu sc) d' r' -> shape_ok clsr d' ->
-  Sim phi (RowSem.set_node sr k (mkRNode (rn_actions n) (Some d') (rn_cont n)))
+  Sim phi (RowSem.set_node sr k (mkRNode (rn_actions n) (Some d') cont'))
       (Compile.set_node sc (router_idx c) (with_body ndr (BSwitch clsr r')) next').
 Proof.
   intros Hsim Hk Hdec Hc Hr Hb Hds Hsh.
